@@ -88,6 +88,30 @@ theorem runScript_spec (nested : Nat → Int → Option (List Out × Bool)) (d k
           rcases List.mem_append.mp he with he | he
           · exact hn _ _ _ _ hnest e he
           · exact h1 e he
+    | emitDec h' =>
+      simp only [runScript] at h
+      by_cases hx : x > 0
+      · simp only [hx, if_true] at h
+        cases hnest : nested h' (x - 1) with
+        | none => simp [hnest] at h
+        | some p =>
+          obtain ⟨o1, c1⟩ := p
+          simp only [hnest] at h
+          cases hrest : runScript nested kind rest x with
+          | none => simp [hrest] at h
+          | some q =>
+            obtain ⟨o2, x2, c2⟩ := q
+            simp only [hrest, Option.some.injEq, Prod.mk.injEq] at h
+            obtain ⟨rfl, rfl, rfl⟩ := h
+            obtain ⟨h1, h2, h3⟩ := ih _ _ _ _ hrest
+            refine ⟨?_, by simpa [mutSum] using h2, by simp [h3]⟩
+            intro e he
+            rcases List.mem_append.mp he with he | he
+            · exact hn _ _ _ _ hnest e he
+            · exact h1 e he
+      · simp only [hx, if_false] at h
+        obtain ⟨h1, h2, h3⟩ := ih _ _ _ _ h
+        exact ⟨h1, by simpa [mutSum] using h2, by simp [h3]⟩
 
 theorem cancelsL_eq (kind : Nat) (l : L) : cancelsL kind l = (kind == 3 && l.script.contains Act.cancel) := rfl
 
